@@ -284,3 +284,47 @@ Proof.
   cbn [app]. rewrite <- point_inside_rot. rewrite <- app_assoc. rewrite <- IH.
   rewrite <- app_assoc. reflexivity.
 Qed.
+
+(* ====================== 5. a worked polygon, and the statement that is NOT proved ====================== *)
+Definition L_example : list Pt :=
+  [(0, 0); (qc 2 1, 0); (qc 2 1, qc 1 1); (qc 1 1, qc 1 1); (qc 1 1, qc 5 2); (0, qc 5 2)].
+
+Example poly_ex :
+  grid_matrix L_example = [[true; false]; [true; true]] /\
+  exists l1 l2, strop_decomposition_all L_example = Some [l1; l2] /\
+    map (fun l => option_map (fun x => (fst x, map rloc (snd x)))
+                    (create_stog (qc 1 100) (qc 1 100) (map rect_of4 l))) [l1; l2] =
+    [Some (true, [TRUNK; EAST]); Some (true, [TRUNK; NORTH])].
+Proof. split; [reflexivity|]. eexists. eexists. split; [vm_compute; reflexivity|reflexivity]. Qed.
+
+(* axis-parallel edges; no zero-length edge; two edges meet only in the common end point of
+   consecutive edges (cyclically) *)
+Definition on_seg (p : Pt) (e : Pt * Pt) : Prop :=
+  Qcmin (fst (fst e)) (fst (snd e)) <= fst p /\ fst p <= Qcmax (fst (fst e)) (fst (snd e)) /\
+  Qcmin (snd (fst e)) (snd (snd e)) <= snd p /\ snd p <= Qcmax (snd (fst e)) (snd (snd e)).
+Definition orthogonal (vs : list Pt) : Prop :=
+  Forall (fun e => fst (fst e) = fst (snd e) \/ snd (fst e) = snd (snd e)) (edges vs).
+Definition simple (vs : list Pt) : Prop :=
+  let es := edges vs in let n := List.length es in let d := ((0, 0), (0, 0)) in
+  (forall i, (i < n)%nat -> fst (nth i es d) <> snd (nth i es d)) /\
+  forall i j p, (i < j < n)%nat -> on_seg p (nth i es d) -> on_seg p (nth j es d) ->
+    (j = S i /\ p = snd (nth i es d)) \/ (i = 0%nat /\ j = (n - 1)%nat /\ p = fst (nth 0 es d)).
+
+Definition rect4_area (r : Rect4) : Qc := let '(_, _, w, h) := r in w * h.
+Definition shoelace (vs : list Pt) : Qc :=
+  Qcabs (Qcsum (map (fun e => fst (fst e) * snd (snd e) - fst (snd e) * snd (fst e)) (edges vs)) * half).
+
+(* "the resulting rectangles have the polygon's area", for every simple orthogonal polygon:
+   NOT proved (it needs: cell centre inside by the even-odd rule <-> cell inside the polygon,
+   a Jordan-curve argument); checked on every generated polygon by the oracle *)
+Definition polygon_area_statement : Prop :=
+  forall vs L l, orthogonal vs -> simple vs -> strop_decomposition_all vs = Some L -> In l L ->
+    Qcsum (map rect4_area l) = shoelace vs.
+
+(* the statement is at least true of the worked example *)
+Example polygon_area_ex : forall L l, strop_decomposition_all L_example = Some L -> In l L ->
+  Qcsum (map rect4_area l) = shoelace L_example.
+Proof.
+  intros L l E Hl. vm_compute in E. injection E as <-.
+  destruct Hl as [<-|[<-|[]]]; apply Qc_is_canon; reflexivity.
+Qed.
